@@ -160,7 +160,7 @@ def gen_inputs(ctx):
 
 
 def main(tier, seed):
-    ctx = core.Ctx(PID, tier, seed, 'translation_validation', THEOREMS, MODULES)
+    ctx = core.Ctx(PID, tier, seed, 'proof', THEOREMS, MODULES)
     ctx.build()
     problems = ctx.audit() if ctx.build_ok else ['lake build failed']
     drv = None
